@@ -25,7 +25,8 @@ RSS_BUDGET_KB = 256 * 1024  # + 4 x (input + legitimately declared output), whic
 RULE = ("inputs: (a) corpus archives damaged (bit flips, truncations, overwrites, inserts/deletes, splices); (b) structure-aware mutation of the "
         "reference writer's header token stream (every NUMBER replaced by each of {0,1,2,0x7f,0x80,0xff,0xffff,2^31,2^32,2^63,2^64-1}, property-id "
         "bytes replaced, single-bit flips and 00/ff in the leading/last bytes of every raw blob (method ids, coder properties, vectors, names), header ranges deleted/duplicated) and hostile coder properties for every codec, all CRCs re-sealed so the parser is "
-        "entered; (c) wrong/missing passwords; plus the intact corpus. x call sequences of length <= 4 over {getnames, list, test, testzip, "
+        "entered; (c) wrong/missing passwords; (e) decompression bombs (768 MiB of zeros behind Deflate/BZip2/LZMA/LZMA2/ZStandard/Brotli in a folder declaring two members of a "
+        "few hundred KiB); plus the intact corpus. x call sequences of length <= 4 over {getnames, list, test, testzip, "
         "extractall, extract(T), reset} incl. extract twice without reset. Monitors per sequence: CPU time <= %.1fs (ITIMER_PROF, process CPU), "
         "VmHWM rise <= %d MiB, only Exception subclasses escape, worker exit status. (d) histories in one interpreter: one input x one sequence "
         "repeated 40 (quick) / 150 (thorough) times, on intact, damaged and structurally mutated archives (every NUMBER := 2^31; thorough also 0, 0xff): "
@@ -60,6 +61,55 @@ HOSTILE_PROPS = [
                   "590011", "5e0011", "7e0011", "99" + "00" + "22", "de" + "00" + "3344", "7e" + "0f" + "55" * 16]),  # 7zAES cycles (25, 30, 62 with well-formed salt/iv)/salt/iv
     ("040202", ["00"]), ("040108", ["00"]), ("040109", ["00"]), ("00", ["00"]),
 ]
+
+
+BOMB_CODECS = ["DEFLATE", "BZip2", "LZMA2", "LZMA", "ZStandard", "Brotli"]
+_bombs = {}
+
+
+def _bomb(codec, mib):
+    """-> (method id hex, props hex or None, packed bytes): `mib` MiB of zeros compressed in a stream (8 MiB at a time)."""
+    k = (codec, mib)
+    if k in _bombs:
+        return _bombs[k]
+    import bz2
+    import lzma
+    import zlib
+
+    chunk = bytes(8 << 20)
+    n = mib // 8
+    props = None
+    if codec == "DEFLATE":
+        c = zlib.compressobj(6, zlib.DEFLATED, -15)
+        mid, feed, fin = "040108", c.compress, c.flush
+    elif codec == "BZip2":
+        c = bz2.BZ2Compressor(9)
+        mid, feed, fin = "040202", c.compress, c.flush
+    elif codec in ("LZMA2", "LZMA"):
+        f = {"id": lzma.FILTER_LZMA2 if codec == "LZMA2" else lzma.FILTER_LZMA1, "preset": 1}
+        props = lzma._encode_filter_properties(f).hex()
+        c = lzma.LZMACompressor(format=lzma.FORMAT_RAW, filters=[f])
+        mid, feed, fin = ("21" if codec == "LZMA2" else "030101"), c.compress, c.flush
+    elif codec == "ZStandard":
+        import pyzstd
+
+        c = pyzstd.ZstdCompressor(3)
+        props = bytes([1, 5, 3, 0, 0]).hex()
+        mid, feed, fin = "04f71101", c.compress, c.flush
+    elif codec == "Brotli":
+        import brotli
+
+        c = brotli.Compressor(quality=4)
+        props = bytes([1, 0, 4]).hex()
+        mid, feed, fin = "04f71102", c.process, c.finish
+    else:
+        raise ValueError(codec)
+    packed = bytearray()
+    for _ in range(n):
+        packed += feed(chunk)
+    packed += fin()
+    _bombs[k] = (mid, props, bytes(packed))
+    return _bombs[k]
 
 
 def _base_members():
@@ -150,6 +200,10 @@ def cases(rng, tier):
     for mid, plist in HOSTILE_PROPS:
         for props in plist:
             out.append({"fam": "props", "id": mid, "props": props, "seqs": _seqs(rng, 4), "open": "stream"})
+    # (e) decompression bombs: a folder whose packed stream expands to 768 MiB of zeros while the header declares two members
+    # that together are as long as the packed stream itself (a few hundred KiB at most)
+    for codec in BOMB_CODECS:
+        out.append({"fam": "bomb", "codec": codec, "mib": 768, "seqs": [["extractall"], ["testzip"], ["extract"], ["extractall", "reset", "testzip"]], "open": "stream", "_cpu_budget": 300, "_timeout": 600})
     # (d) histories in one interpreter: the same sequence again and again on one input; what a call keeps
     # (descriptors, threads, memory) must not add up
     reps = 40 if tier == "quick" else 150
@@ -603,6 +657,14 @@ def run_case(case):
                 data = W.build(mem, lay, password="pw", rng=random.Random(1), header_bytes_hook=bhook)
                 cls = m[0]
             inputs.append(("layout%d:%r" % (case["layout"], m), data, "pw", "struct-" + cls))
+    elif fam == "bomb":
+        mid, props, packed = _bomb(case["codec"], case["mib"])
+        half = len(packed) // 2
+        mem = [{"name": "m1", "kind": "file", "data": packed[:half], "mtime": None, "attributes": 0x20}, {"name": "m2", "kind": "file", "data": packed[half:], "mtime": None, "attributes": 0x20}]
+        # no CRCs: the declared bytes are the first bytes of the zeros, the stored 'data' only fixes the declared sizes
+        data = W.build(mem, {"folders": [{"n": 2, "chain": [{"m": "RAW", "id": mid, "props": props}], "crc": "none"}], "header": "raw"})
+        obs["bomb_expansion_mib"] = case["mib"]
+        inputs.append(("bomb:%s:%dMiB-in-%dB" % (case["codec"], case["mib"], len(data)), data, None, "bomb"))
     else:
         payload = random.Random(3).randbytes(96)
         mem = [{"name": "x", "kind": "file", "data": payload, "mtime": None, "attributes": 0x20}]
@@ -743,6 +805,10 @@ def on_abnormal(case, kind, info):
         # finding (decode past the end of a hostile stream) when the archive was a valid one
         return K.result("violated", key="deadlock/%s" % fam, what="call blocked with no CPU progress (%s)" % fam, valid_input=(fam == "intact"))
     if kind.startswith("crash:") and "ABRT" in kind:
+        has_ppmd = case.get("layout") == 4 or "ppmd" in str((case.get("arc") or {}).get("label", "")).lower()
+        if has_ppmd and fam != "intact" and not (fam == "repeat" and case.get("arc") and not case.get("ops")) and any(t in (info or "") for t in ("tpp_change_priority", "pthread_mutex", "futex")):
+            # the same damaged mutex that otherwise blocks both threads for good, noticed by glibc's own assertion
+            return K.result("violated", key="codec-library/pyppmd-decoder-deadlock", what="family %s on a hostile PPMd input: glibc aborted inside its mutex code (%s)" % (fam, (info or "").strip()[-120:]))
         for order, mem in _ppmd_candidates(case):
             if _ppmd_alloc_aborts(order, mem):
                 return K.result("violated", key="codec-library/pyppmd-alloc-failure-abort",
